@@ -28,6 +28,9 @@ the reader / writer drivers).
                            '-' from the function's entry on (`*p` and `p[0]`), the call is unreachable or no return of the converted
                            value is reachable after it (an upper bound cannot exclude wrapped values; string_to_ulong's "-1" -> 0
                            special case returns a constant before the call and is untouched).
+ S6-strto-base-10          every strtol/strtoll/strtoul/strtoull (strtoimax/strtoumax) call passes the constant-folded base 10 (base 0
+                           would read "010" as 8 and accept "0x10"); non-constant base = unknown shape.  Quick: every body of the
+                           scope unit; thorough: all drivers (adds the pbf_compression_level option parser).
  A2-scale-down-complete    a loop that divides an accumulator by a constant once per step of a counter
                            (`for (; scale < 0 && result > 0; ++scale) result /= 10`) is left, in every abstract exit state, with the
                            counter's own condition exhausted or the value == 0; otherwise rounding sees an under-divided value.
@@ -1152,6 +1155,36 @@ def rule_non_reentrant(R, fb):
                   '%s calls %s (%s): concurrent formatting / parsing in the thread pool reads another call\'s result' % (fn.q, name, why))
 
 
+# ------------------------------------------------------------------------------------------------ S6 (strict decimal)
+
+STRTO_INT = ('strtol', 'strtoll', 'strtoul', 'strtoull', 'strtoimax', 'strtoumax')
+
+
+def rule_strto_base(R, fns):
+    """OSM attributes and option values are decimal: every strto* integer conversion passes the constant base 10.  Base 0 reads
+    "010" as 8 and accepts "0x10"; another base reads different digits; a base that is not a constant cannot be judged."""
+    for fn in fns:
+        if not fn.has_cfg:
+            continue
+        for call in fn.all_nodes():
+            if not (is_extern_c(call) and call.get('q') in STRTO_INT):
+                continue
+            args = call.get('args', []) or []
+            key = _k('%s#%s:base' % (fn.q, call['q']))
+            if len(args) < 3 or args[2] is None:
+                R.broken('S6: %s call in %s has no base argument' % (call['q'], fn.q))
+                continue
+            base = fn.const_value(args[2])
+            if base is None:
+                R.broken('S6: the base passed to %s in %s (%s) is not a compile-time constant' % (call['q'], fn.q, fn.loc(call['id'])))
+                continue
+            R.check(base == 10, 'S6-strto-base-10', key, fn.loc(call['id']),
+                    '%s in %s is called with base %d: %s' % (call['q'], fn.q, base,
+                                                            'zero-prefixed numbers are read as octal ("010" -> 8, "08" -> 0) and "0x10" is accepted as 16'
+                                                            if base == 0 else 'the text is not read as a decimal number'),
+                    'base is the constant 10')
+
+
 # ------------------------------------------------------------------------------------------------ L1
 
 def rule_consumed(R, fns):
@@ -1197,6 +1230,7 @@ def all_rules(fb, R, fns=None, all_functions=True):
     rule_digit(R, fns, cache)
     rule_index(R, fns, cache)
     rule_strto(R, fns)
+    rule_strto_base(R, [f for f in fb.functions if f.has_cfg] if all_functions else fns)
     rule_consumed(R, fns)
     rule_output_iterator(R, [f for f in fb.functions if f.has_cfg] if all_functions else fns)
     rule_non_reentrant(R, fb)
@@ -1232,12 +1266,14 @@ def run(ctx):
             fb = ctx.facts(rest, 'ndebug14')
             rule_output_iterator(R, [f for f in fb.functions if f.has_cfg])
             rule_non_reentrant(R, fb)
+            rule_strto_base(R, fb.functions)
     R.expect('A1-accum-bounded', 10)          # coordinate parser 4 (int digits, fraction, exponent digits, scale-up), opl_parse_int 2, opl_parse_escaped 4
     R.expect('S1-strto-range-rejected', 3)    # string_to_object_id, string_to_ulong, str_to_int
     R.expect('S2-strto-trailing-rejected', 3)
     R.expect('S3-strto-no-digits-rejected', 2)       # the two throwing wrappers
     R.expect('S4-strto-leading-space-rejected', 2)
     R.expect('S5-strtoul-minus-rejected', 1)         # string_to_ulong (the only strtoul site)
+    R.expect('S6-strto-base-10', 3)                  # string_to_object_id, string_to_ulong, str_to_int (thorough: + PBFOutputFormat option)
     R.expect('A2-scale-down-complete', 1)            # the negative-exponent loop of the coordinate parser
     R.expect('A3-scale-up-early-exit-rejected', 1)   # the positive-exponent loop of the coordinate parser
     R.expect('B1-digit-budget-constant', 5)          # coordinate parser: int digits, fraction, ignored digits, exponent digits; opl_parse_escaped
@@ -1291,13 +1327,13 @@ def _selftest_once(fb, R):
             for i in mine:
                 if not i.ok:
                     wrong.append('%s reported by %s' % (nm, i.rule))
-    if wrong or R.broken_msgs or len(names) < 42:
+    if wrong or R.broken_msgs or len(names) < 43:
         raise AnalysisBroken('IVAL self-test: unexpected verdicts on selftest/positive/c13_text.cpp: %s %s' % (wrong, R.broken_msgs))
 
 
 SELFTESTS = [(r, 'c13_text.cpp', _selftest) for r in (
     'A1-accum-bounded', 'S1-strto-range-rejected', 'S2-strto-trailing-rejected', 'S3-strto-no-digits-rejected',
-    'S4-strto-leading-space-rejected', 'S5-strtoul-minus-rejected', 'A2-scale-down-complete', 'A3-scale-up-early-exit-rejected',
+    'S4-strto-leading-space-rejected', 'S5-strtoul-minus-rejected', 'S6-strto-base-10', 'A2-scale-down-complete', 'A3-scale-up-early-exit-rejected',
     'B1-digit-budget-constant', 'T2-month-length-table', 'T3-timegm-fields-in-range', 'T4-timegm-fields-complete',
     'O1-output-iterator-threaded', 'W1-no-nonreentrant-libc', 'L1-coordinate-fully-consumed', 'N1-negation-excludes-minimum', 'C1-narrowing-in-range',
     'D1-digit-validated', 'T1-array-index-in-range')]
